@@ -84,7 +84,8 @@ def covOf (t : JVal) (log : List (Call × Int)) : List String :=
           base :: sib
       here ++ go rest
   let tags := go log
-  shape :: (if tags.isEmpty then ["all-continue"] else tags.eraseDups)
+  -- an all-CONTINUE run yields a single tag, so that only runs with a non-CONTINUE code count as non-trivial
+  if tags.isEmpty then ["all-continue." ++ shape] else shape :: tags.eraseDups
 
 def step (_ : Unit) (w : List String) : Unit × Out :=
   let run (tw sw : String) (ff : Int) : Out :=
